@@ -19,7 +19,7 @@ SPEC = dict(
     harness=['h_tree.c'], cflags=['-DVF_MODE_ITER'],
     configs=lambda tier: [dict(name='avl'), dict(name='rbt', hflags=['-DVF_TREE_RBT'])] + ([dict(name='avl-unpacked', cflags=['-DA_SIZE_POINTER=1']), dict(name='rbt-unpacked', hflags=['-DVF_TREE_RBT'], cflags=['-DA_SIZE_POINTER=1']),
                           dict(name='avl-clang', libcc='clang'), dict(name='avl-o2', libflavour='san-o2', libdrop=['-fno-strict-aliasing']), dict(name='rbt-clang', hflags=['-DVF_TREE_RBT'], libcc='clang'), dict(name='rbt-o2', hflags=['-DVF_TREE_RBT'], libflavour='san-o2', libdrop=['-fno-strict-aliasing']),
-                          dict(name='avl-unpacked-uchar', cflags=['-DA_SIZE_POINTER=1', '-funsigned-char'])] +
+                          dict(name='avl-unpacked-uchar', cflags=['-DA_SIZE_POINTER=1', '-funsigned-char', '-funsigned-bitfields'])] +
                          [dict(name='avl-minalign', cflags=['-fno-sanitize=alignment'], hflags=['-DVF_MINALIGN=%d' % n]) for n in _minalign('avl.h')] +
                          [dict(name='rbt-minalign', cflags=['-fno-sanitize=alignment'], hflags=['-DVF_TREE_RBT', '-DVF_MINALIGN=%d' % n]) for n in _minalign('rbt.h')]),
     parallel_configs=11,
